@@ -453,15 +453,59 @@ func idsSx(ids []int) sx {
 	return out
 }
 
-// offsetWriter records the file offset at which every Write call begins
-type offsetWriter struct {
-	buf    bytes.Buffer
-	starts []int
-}
-
-func (w *offsetWriter) Write(p []byte) (int, error) {
-	w.starts = append(w.starts, w.buf.Len())
-	return w.buf.Write(p)
+// containerLayout parses a well-formed container file the harness wrote itself: the offset at which each block starts, its
+// payload starts and its payload ends (the 16-byte marker follows); nil when the bytes do not have that shape.
+func containerLayout(data []byte) (starts, payloads, payloadEnds []int) {
+	pos := 0
+	rd := func() (int64, bool) {
+		v, n := binary.Varint(data[pos:])
+		if n <= 0 {
+			return 0, false
+		}
+		pos += n
+		return v, true
+	}
+	if len(data) < 4 || !bytes.Equal(data[:4], []byte{'O', 'b', 'j', 1}) {
+		return nil, nil, nil
+	}
+	pos = 4
+	for {
+		c, ok := rd()
+		if !ok || c < 0 {
+			return nil, nil, nil
+		}
+		if c == 0 {
+			break
+		}
+		for ; c > 0; c-- {
+			for j := 0; j < 2; j++ {
+				l, ok := rd()
+				if !ok || l < 0 || l > int64(len(data)-pos) {
+					return nil, nil, nil
+				}
+				pos += int(l)
+			}
+		}
+	}
+	pos += 16
+	for pos < len(data) {
+		starts = append(starts, pos)
+		if _, ok := rd(); !ok {
+			return nil, nil, nil
+		}
+		l, ok := rd()
+		if !ok || l < 0 || l > int64(len(data)-pos-16) {
+			return nil, nil, nil
+		}
+		payloads = append(payloads, pos)
+		pos += int(l)
+		payloadEnds = append(payloadEnds, pos)
+		pos += 16
+	}
+	if pos != len(data) {
+		return nil, nil, nil
+	}
+	return
 }
 
 // execBigCut: (big-cut codec size nrec): a file whose first block holds nrec records and `size` payload bytes (more than the
@@ -469,7 +513,7 @@ func (w *offsetWriter) Write(p []byte) (int, error) {
 // payload and inside the second block. Outcome (cuts (c pos delivered err)...) with the block layout (layout b0 p0 e0 end).
 func execBigCut(a []sx) sx {
 	codec, size, nrec := a[0].atom, int(a[1].int()), int(a[2].int())
-	w := &offsetWriter{}
+	w := &bytes.Buffer{}
 	e, err := avro.NewEncoderFor[recB](w, avro.Compression(codec), 1<<30)
 	if err != nil {
 		return T("writeerr", A(clean(err.Error())))
@@ -487,19 +531,20 @@ func execBigCut(a []sx) sx {
 	}
 	e.Encode(&recB{B: []byte("tail")})
 	e.Flush()
-	file := w.buf.Bytes()
-	if len(w.starts) != 9 {
-		return T("writeerr", A(fmt.Sprintf("unexpected-write-count-%d", len(w.starts))))
+	file := w.Bytes()
+	// the layout is read off the bytes (not off the Write calls: how the writer groups its writes is not this property's business)
+	bst, pst, pen := containerLayout(file)
+	if len(bst) != 2 {
+		return T("writeerr", A(fmt.Sprintf("unexpected-block-count-%d", len(bst))))
 	}
-	// writes: header | count len payload sync | count len payload sync
-	b0, p0, e0 := w.starts[1], w.starts[3], w.starts[5]
+	b0, p0, pe0, e0, pe1 := bst[0], pst[0], pen[0], bst[1], pen[1]
 	var cuts []int
-	for k := 1; p0+k<<20 <= w.starts[4]+1; k++ {
+	for k := 1; p0+k<<20 <= pe0+1; k++ {
 		for d := -1; d <= 1; d++ {
 			cuts = append(cuts, p0+k<<20+d)
 		}
 	}
-	cuts = append(cuts, b0, b0+1, p0-1, p0, p0+1, w.starts[4]-1, w.starts[4], w.starts[4]+15, e0-1, e0, e0+1, len(file)-17, len(file)-1, len(file))
+	cuts = append(cuts, b0, b0+1, p0-1, p0, p0+1, pe0-1, pe0, pe0+15, e0-1, e0, e0+1, len(file)-17, len(file)-1, len(file))
 	out := T("cuts")
 	for _, c := range cuts {
 		if c < 0 || c > len(file) {
@@ -513,7 +558,7 @@ func execBigCut(a []sx) sx {
 		})
 		out.list = append(out.list, T("c", I(int64(c)), I(int64(got)), boolSx(rerr != nil)))
 	}
-	return T("bigcut", T("layout", I(int64(b0)), I(int64(p0)), I(int64(w.starts[4])), I(int64(e0)), I(int64(w.starts[8])), I(int64(len(file)))), out)
+	return T("bigcut", T("layout", I(int64(b0)), I(int64(p0)), I(int64(pe0)), I(int64(e0)), I(int64(pe1)), I(int64(len(file)))), out)
 }
 
 func execFile(op string, a []sx) sx {
